@@ -112,7 +112,11 @@ func (m *Manager) checkAndPrune() {
 }
 
 type Transaction struct {
-	writtenCaches map[string]*sharedCacheElem
+	/* The shared caches this transaction holds a write lock on, with the name
+	 * they were requested under. It is keyed by the cache itself and not by
+	 * the name because a cache can be evicted from the manager and replaced
+	 * by a new one with the same name while we hold the old one. */
+	writtenCaches map[*sharedCacheElem]string
 	mu            sync.Mutex
 	manager       *Manager
 	failed        atomic.Bool
@@ -123,7 +127,7 @@ type Transaction struct {
 
 func (m *Manager) NewTransaction() *Transaction {
 	return &Transaction{
-		writtenCaches:   make(map[string]*sharedCacheElem),
+		writtenCaches:   make(map[*sharedCacheElem]string),
 		manager:         m,
 		startGeneration: m.generation.Load(),
 	}
@@ -160,7 +164,12 @@ func (t *Transaction) With(name string, readOnly bool, createFn func() (Cachable
 	 * everyone else. In that case we stay away from the shared caches. */
 	if readOnly && t.manager.generation.Load() != t.startGeneration {
 		t.mu.Lock()
-		_, isWriter := t.writtenCaches[name]
+		isWriter := false
+		for _, writtenName := range t.writtenCaches {
+			if writtenName == name {
+				isWriter = true
+			}
+		}
 		t.mu.Unlock()
 		if !isWriter {
 			log.Debug().Str("name", name).Msg("Storage snapshot is older than shared cache, using cold cache")
@@ -192,7 +201,7 @@ func (t *Transaction) With(name string, readOnly bool, createFn func() (Cachable
 			// let other go routines on the same transaction to concurrently
 			// read from it whilst one go routine is writing.
 			t.mu.Lock()
-			_, ok := t.writtenCaches[name]
+			_, ok := t.writtenCaches[existingCache]
 			t.mu.Unlock()
 			if !ok {
 				/* We are using TryRLock here because we can survive if we don't get
@@ -240,13 +249,13 @@ func (t *Transaction) With(name string, readOnly bool, createFn func() (Cachable
 			 * to ensure other readers or writers do not see partial results.
 			 * Within a transaction a writer can write to multiple caches, e.g.
 			 * multiple indices. */
-			if _, ok := t.writtenCaches[name]; !ok {
+			if _, ok := t.writtenCaches[existingCache]; !ok {
 				/****************************
 				 * Please do not forget to unlock after the transaction is
 				 * complete.
 				 ***************************/
 				existingCache.mu.Lock()
-				t.writtenCaches[name] = existingCache
+				t.writtenCaches[existingCache] = name
 			}
 			t.mu.Unlock()
 		}
@@ -312,7 +321,7 @@ func (t *Transaction) With(name string, readOnly bool, createFn func() (Cachable
 		// The following shared cache lock is released when the transaction is done.
 		s.mu.Lock()
 		t.mu.Lock()
-		t.writtenCaches[name] = s
+		t.writtenCaches[s] = name
 		t.mu.Unlock()
 		// defer s.mu.Unlock()
 	}
@@ -343,10 +352,14 @@ func (t *Transaction) Commit(fail bool) {
 	// From now on the shared caches are ahead of any older storage snapshot
 	t.manager.generation.Add(1)
 	failed := t.failed.Load() || fail
-	for name, s := range t.writtenCaches {
+	for s, name := range t.writtenCaches {
 		if failed {
 			s.scrapped = true
-			delete(t.manager.sharedCaches, name)
+			// Only remove our cache, it may have been evicted and replaced
+			// by a healthy one in the meantime
+			if t.manager.sharedCaches[name] == s {
+				delete(t.manager.sharedCaches, name)
+			}
 		}
 		log.Debug().Str("name", name).Bool("failed", failed).Msg("Committing cache")
 		verifPoint("commit:before-unlock", name)
